@@ -30,15 +30,41 @@ pub(crate) trait Event {
     fn writable(&self) -> bool;
 }
 
-static TOKEN_FD: Lazy<DashMap<u64, c_int>> = Lazy::new(DashMap::new);
-
 static READABLE_RECORDS: Lazy<DashSet<c_int>> = Lazy::new(DashSet::new);
 
-static READABLE_TOKEN_RECORDS: Lazy<DashMap<c_int, u64>> = Lazy::new(DashMap::new);
+/// descriptor -> tokens of the callers that currently wait for it to become readable
+static READABLE_TOKEN_RECORDS: Lazy<DashMap<c_int, Vec<u64>>> = Lazy::new(DashMap::new);
 
 static WRITABLE_RECORDS: Lazy<DashSet<c_int>> = Lazy::new(DashSet::new);
 
-static WRITABLE_TOKEN_RECORDS: Lazy<DashMap<c_int, u64>> = Lazy::new(DashMap::new);
+/// descriptor -> tokens of the callers that currently wait for it to become writable
+static WRITABLE_TOKEN_RECORDS: Lazy<DashMap<c_int, Vec<u64>>> = Lazy::new(DashMap::new);
+
+/// Record that `token` waits for `fd`.
+fn add_waiter(records: &DashMap<c_int, Vec<u64>>, fd: c_int, token: u64) {
+    let mut waiters = records.entry(fd).or_default();
+    if !waiters.contains(&token) {
+        waiters.push(token);
+    }
+}
+
+/// The wait of `token` for `fd` is over.
+fn remove_waiter(records: &DashMap<c_int, Vec<u64>>, fd: c_int, token: u64) {
+    if let dashmap::mapref::entry::Entry::Occupied(mut waiters) = records.entry(fd) {
+        waiters.get_mut().retain(|waiter| *waiter != token);
+        if waiters.get().is_empty() {
+            _ = waiters.remove();
+        }
+    }
+}
+
+/// The token a descriptor is registered with at the OS: the descriptor itself. Who has to be
+/// resumed is looked up per event and direction (see [`Selector::waiters_of`]), because the
+/// registration outlives the wait that created it and one descriptor can have a reader and a
+/// writer at the same time.
+fn os_token(fd: c_int) -> u64 {
+    u64::try_from(fd).unwrap_or(u64::MAX)
+}
 
 /// Events abstraction.
 pub(crate) trait EventIterator<E: Event> {
@@ -75,54 +101,76 @@ pub(crate) trait Selector<I: Interest, E: Event, S: EventIterator<E>> {
             _ = crate::verif::clock_advance(verif_timeout.unwrap_or(SLICE));
         }
         self.waiting().store(false, Ordering::Release);
-        for event in events.iterator() {
-            let token = event.get_token();
-            let fd = TOKEN_FD.remove(&token).map_or(0, |r| r.1);
-            if event.readable() {
-                _ = READABLE_TOKEN_RECORDS.remove(&fd);
-            }
-            if event.writable() {
-                _ = WRITABLE_TOKEN_RECORDS.remove(&fd);
+        result
+    }
+
+    /// The tokens of the callers that wait for what `event` reports; each wait is handed out once.
+    fn waiters_of(&self, event: &E) -> Vec<u64> {
+        let mut waiters = Vec::new();
+        let Ok(fd) = c_int::try_from(event.get_token()) else {
+            return waiters;
+        };
+        if event.readable() {
+            if let Some((_, mut tokens)) = READABLE_TOKEN_RECORDS.remove(&fd) {
+                waiters.append(&mut tokens);
             }
         }
-        result
+        if event.writable() {
+            if let Some((_, mut tokens)) = WRITABLE_TOKEN_RECORDS.remove(&fd) {
+                waiters.append(&mut tokens);
+            }
+        }
+        waiters
+    }
+
+    /// The wait of `token` for `fd` to become readable is over (it may have timed out): a later
+    /// event for `fd` must not resume `token` while it is waiting for something else.
+    fn end_read_wait(&self, fd: c_int, token: u64) {
+        remove_waiter(&READABLE_TOKEN_RECORDS, fd, token);
+    }
+
+    /// See [`Selector::end_read_wait`].
+    fn end_write_wait(&self, fd: c_int, token: u64) {
+        remove_waiter(&WRITABLE_TOKEN_RECORDS, fd, token);
     }
 
     /// # Errors
     /// if add failed.
     fn add_read_event(&self, fd: c_int, token: u64) -> std::io::Result<()> {
-        if READABLE_RECORDS.contains(&fd) {
-            return Ok(());
+        if !READABLE_RECORDS.contains(&fd) {
+            let os_token = os_token(fd);
+            if WRITABLE_RECORDS.contains(&fd) {
+                //同时对读写事件感兴趣
+                let interests = I::read_and_write(os_token);
+                self.reregister(fd, os_token, interests)
+                    .or_else(|_| self.register(fd, os_token, interests))
+            } else {
+                self.register(fd, os_token, I::read(os_token))
+            }?;
+            _ = READABLE_RECORDS.insert(fd);
         }
-        if WRITABLE_RECORDS.contains(&fd) {
-            //同时对读写事件感兴趣
-            let interests = I::read_and_write(token);
-            self.reregister(fd, token, interests)
-                .or_else(|_| self.register(fd, token, interests))
-        } else {
-            self.register(fd, token, I::read(token))
-        }?;
-        _ = READABLE_RECORDS.insert(fd);
-        _ = READABLE_TOKEN_RECORDS.insert(fd, token);
+        // whoever waits now is to be resumed, the registration may be older than this wait
+        add_waiter(&READABLE_TOKEN_RECORDS, fd, token);
         Ok(())
     }
 
     /// # Errors
     /// if add failed.
     fn add_write_event(&self, fd: c_int, token: u64) -> std::io::Result<()> {
-        if WRITABLE_RECORDS.contains(&fd) {
-            return Ok(());
+        if !WRITABLE_RECORDS.contains(&fd) {
+            let os_token = os_token(fd);
+            if READABLE_RECORDS.contains(&fd) {
+                //同时对读写事件感兴趣
+                let interests = I::read_and_write(os_token);
+                self.reregister(fd, os_token, interests)
+                    .or_else(|_| self.register(fd, os_token, interests))
+            } else {
+                self.register(fd, os_token, I::write(os_token))
+            }?;
+            _ = WRITABLE_RECORDS.insert(fd);
         }
-        if READABLE_RECORDS.contains(&fd) {
-            //同时对读写事件感兴趣
-            let interests = I::read_and_write(token);
-            self.reregister(fd, token, interests)
-                .or_else(|_| self.register(fd, token, interests))
-        } else {
-            self.register(fd, token, I::write(token))
-        }?;
-        _ = WRITABLE_RECORDS.insert(fd);
-        _ = WRITABLE_TOKEN_RECORDS.insert(fd, token);
+        // whoever waits now is to be resumed, the registration may be older than this wait
+        add_waiter(&WRITABLE_TOKEN_RECORDS, fd, token);
         Ok(())
     }
 
@@ -130,11 +178,9 @@ pub(crate) trait Selector<I: Interest, E: Event, S: EventIterator<E>> {
     /// if delete failed.
     fn del_event(&self, fd: c_int) -> std::io::Result<()> {
         if READABLE_RECORDS.contains(&fd) || WRITABLE_RECORDS.contains(&fd) {
-            let token = READABLE_TOKEN_RECORDS
-                .remove(&fd)
-                .or(WRITABLE_TOKEN_RECORDS.remove(&fd))
-                .map_or(0, |r| r.1);
-            self.deregister(fd, token)?;
+            _ = READABLE_TOKEN_RECORDS.remove(&fd);
+            _ = WRITABLE_TOKEN_RECORDS.remove(&fd);
+            self.deregister(fd, os_token(fd))?;
             _ = READABLE_RECORDS.remove(&fd);
             _ = WRITABLE_RECORDS.remove(&fd);
         }
@@ -150,7 +196,7 @@ pub(crate) trait Selector<I: Interest, E: Event, S: EventIterator<E>> {
         if READABLE_RECORDS.contains(&fd) {
             if WRITABLE_RECORDS.contains(&fd) {
                 //写事件不能删
-                let token = WRITABLE_TOKEN_RECORDS.get(&fd).map_or(0, |r| *r.value());
+                let token = os_token(fd);
                 self.reregister(fd, token, I::write(token))?;
                 assert!(
                     READABLE_RECORDS.remove(&fd).is_some(),
@@ -173,7 +219,7 @@ pub(crate) trait Selector<I: Interest, E: Event, S: EventIterator<E>> {
         if WRITABLE_RECORDS.contains(&fd) {
             if READABLE_RECORDS.contains(&fd) {
                 //读事件不能删
-                let token = READABLE_TOKEN_RECORDS.get(&fd).map_or(0, |r| *r.value());
+                let token = os_token(fd);
                 self.reregister(fd, token, I::read(token))?;
                 assert!(
                     WRITABLE_RECORDS.remove(&fd).is_some(),
@@ -189,23 +235,17 @@ pub(crate) trait Selector<I: Interest, E: Event, S: EventIterator<E>> {
 
     /// For inner use.
     fn register(&self, fd: c_int, token: u64, interests: I) -> std::io::Result<()> {
-        self.do_register(fd, token, interests).map(|()| {
-            _ = TOKEN_FD.insert(token, fd);
-        })
+        self.do_register(fd, token, interests)
     }
 
     /// For inner use.
     fn reregister(&self, fd: c_int, token: u64, interests: I) -> std::io::Result<()> {
-        self.do_reregister(fd, token, interests).map(|()| {
-            _ = TOKEN_FD.insert(token, fd);
-        })
+        self.do_reregister(fd, token, interests)
     }
 
     /// For inner use.
     fn deregister(&self, fd: c_int, token: u64) -> std::io::Result<()> {
-        self.do_deregister(fd, token).map(|()| {
-            _ = TOKEN_FD.remove(&token);
-        })
+        self.do_deregister(fd, token)
     }
 
     /// For inner impls.
